@@ -924,6 +924,7 @@ func doMapUpdate(mv, k, v value) {
 	if u, isU := k.(*union); isU {
 		k = splitUnion(u)
 	}
+	k = copyVal(k)
 	noteMapWrite(m)
 	for i, kk := range m.keys {
 		if keyEq(kk, k) {
@@ -937,8 +938,40 @@ func doMapUpdate(mv, k, v value) {
 
 // key equality for map updates; symbolic strings are resolved by forking
 func keyEq(a, b value) bool {
+	if x, ok := a.(array); ok {
+		y, ok2 := b.(array)
+		if !ok2 || len(x) != len(y) {
+			return false
+		}
+		for i := range x {
+			if !keyEq(x[i], y[i]) {
+				return false
+			}
+		}
+		return true
+	}
+	if x, ok := a.(structure); ok {
+		y, ok2 := b.(structure)
+		if !ok2 || len(x) != len(y) {
+			return false
+		}
+		for i := range x {
+			if !keyEq(x[i], y[i]) {
+				return false
+			}
+		}
+		return true
+	}
+	_, ta := a.(*tab)
+	_, tb := b.(*tab)
+	if ta || tb {
+		return branch(binop(token.EQL, a, b, nil))
+	}
 	if isSym(a) || isSym(b) {
-		return branch(strEq(a, b))
+		if isStringish(a) || isStringish(b) {
+			return branch(strEq(a, b))
+		}
+		return branch(binop(token.EQL, a, b, nil))
 	}
 	return eqConc(a, b)
 }
@@ -962,6 +995,18 @@ func doLookup(x *ssa.Lookup, m, k value) value {
 		}
 		alts = append(alts, alt{none, lookupRes(x, zero(elemT), false)})
 		return mergeAlts(alts)
+	}
+	if _, isArr := k.(array); isArr {
+		// composite key: resolve by (possibly forking) element-wise comparison
+		mv, _ := m.(*mapVal)
+		if mv != nil {
+			for i, kk := range mv.keys {
+				if keyEq(kk, k) {
+					return lookupRes(x, mv.vals[i], true)
+				}
+			}
+		}
+		return lookupRes(x, zero(elemT), false)
 	}
 	return transposeTuple(lift2(m, k, func(m, k value) value {
 		mv, ok := m.(*mapVal)
